@@ -86,6 +86,7 @@ MISS_MAX = {2: 0.0025, 3: 0.035}     # allowed fraction of edges outside [0.5, 2
 MISS_SLACK = 2.0                     # + this many edges (tiny meshes)
 LEN_HARD = {2: (0.26, 3.1), 3: (0.145, 2.5)}   # no edge at all outside
 QMIN = {2: 0.125, 3: 0.165}
+MIN_VERTS = 200                     # the property's quantifier: complexities giving 200..20000 vertices
 NPC = {2: (0.78, 2.77), 3: (1.6, 6.3)}   # nverts / complexity
 
 
@@ -344,6 +345,10 @@ def oracle_quasiunit(ops, impl, stats=None):
                 continue
             if stats is not None:
                 stats.append((i, which, se, sa))
+            if se['nv'] < MIN_VERTS:
+                # the property quantifies over target complexities "giving 200..20000 vertices": a result below that is
+                # outside its domain (a handful of edges decides a percentage there); measured, reported, not judged
+                continue
             for msg in judge(dim, tag, se) + judge(dim, tag, sa, 'analytic'):
                 bad.append((i, msg))
     return bad
@@ -402,8 +407,8 @@ def gen_quasiunit(rng, tier, np=None):
         ln = '1,1,1' if coarsen else rng.choice(['1,1,1', '1,1,1', '2,1,1'])
         lengths = [float(x) for x in ln.split(',')]
         if coarsen:
-            n = [rng.randint(6, 8) for _ in range(3)]
-            cx = rng.uniform(25.0, 60.0)
+            n = [rng.randint(8, 10) for _ in range(3)]
+            cx = rng.uniform(70.0, 120.0)      # about 230..480 output vertices (3-D nverts/complexity is 3.2..4.2 here)
         else:
             n = [rng.randint(2, 4) for _ in range(3)]
             cx = rng.uniform(150.0, 400.0)
@@ -413,8 +418,8 @@ def gen_quasiunit(rng, tier, np=None):
     for k in range(3 * mult):
         coarsen = k % 3 == 1
         if coarsen:
-            n = [rng.randint(20, 28) for _ in range(2)]
-            cx = rng.uniform(80.0, 200.0)
+            n = [rng.randint(24, 32) for _ in range(2)]
+            cx = rng.uniform(180.0, 400.0)     # about 220..650 output vertices
         else:
             n = [rng.randint(3, 8) for _ in range(2)]
             cx = rng.uniform(250.0, 900.0)
